@@ -106,6 +106,14 @@ Remove(id) ==
        ELSE /\ Log("Remove", [id |-> id], [ret |-> NULL]) /\ UNCHANGED <<live, cache>>
     /\ UNCHANGED <<next, inited, wrapped, burnt>>
 
+\* HAsearch_atom(grp, func, key) with func = "is this the object `obj`": the object if an atom in use designates it, NULL
+\* otherwise (how Hopen recognises a file that is already open, and Hendaccess / HLconvert find the other access
+\* records of an element); the lookup cache is not involved
+Search(obj) ==
+    /\ inited
+    /\ Log("Search", [obj |-> obj], [ret |-> IF \E i \in DOMAIN live : live[i] = obj THEN obj ELSE NULL])
+    /\ UNCHANGED <<live, next, cache, inited, wrapped, burnt>>
+
 \* HAdestroy_group (last reference): everything of the group goes, including its cache entries
 Destroy ==
     /\ inited /\ inited' = FALSE
@@ -118,6 +126,7 @@ RegObj(o) == 100 + (IF wrapped \/ next = IdSpace THEN 50 ELSE 0) + (next % IdSpa
 Next == \/ InitGroup \/ Destroy \/ Burn
         \/ \E o \in Objs : Register(RegObj(o))
         \/ \E id \in 0..MaxIds : Lookup(id) \/ Remove(id)
+        \/ \E id \in 0..MaxIds, o \in Objs : Search(100 + (id % IdSpace) * 3 + o)
 Spec == Init /\ [][Next]_vars
 
 ---------------------------------------------------------------------------
